@@ -47,6 +47,12 @@ RULE = ('store cases: a forest of real pulse templates of all 14 classes (random
         'position), intval (integer channel ids as values, unflagged). doc and dur cases are correspondence-only case kinds '
         '(check_spec = true for them); a failing case counts as a known finding only when every clause other than the load '
         'clause holds and every failing root shows the symptom of the finding (classify). '
+        'round 6 families: constraint (32 kinds of relation - unequality as text / sympy object / ParameterConstraint '
+        'object, ==, <, <=, >, >=, And, Or, Not, Xor, Implies, ITE, relations over Abs / Max / rationals / powers, constant '
+        'relations - as parameter constraint of each of the 8 constraint carrying classes, observed with 4 further '
+        'assignments that violate / satisfy each relation: the loaded pulse must reject exactly what the original '
+        'rejects), amcdur (explicit AtomicMultiChannelPT duration 0 / 1 / 2 as int, float, numpy scalar, string, '
+        'ExpressionScalar, bool; alone, referenced and embedded). '
         'Non-trivial = at least one named sub-template below a root, a doc case that changes the document, a history '
         'with at least two operations one of which succeeds, or a dur case with a rational duration value.')
 TRUSTED = [
@@ -1439,7 +1445,13 @@ MANIFEST = {
                   '(C10_documents); refutation theorems for the known findings; round 5: the transaction guard of repo commit '
                   'a5bca40 never fires on a tree in which one identifier is one object, in any storage state, so the guarded '
                   'operations the correspondence check runs are the core operations of the theorems (C10_tx_guard_silent, '
-                  'C10_guarded_store_histories_are_core, C10_guarded_histories_are_core, C10_storage_guarded). NOT proved, tested '
+                  'C10_guarded_store_histories_are_core, C10_guarded_histories_are_core, C10_storage_guarded); round 6: the serialised '
+                  'form (any key rendering, references or embedded children) does not read object identities, so the loaded '
+                  'pulse has the same document and comparison form as the original (`==` in the sense of the real classes), '
+                  're-storing it writes the same documents, and every observation that does not read object identities '
+                  'takes the same value on it (C10_serialised_form_identity_blind, C10_storage_observation, '
+                  'C10_identity_blind_instances) - this reduces the program clause to "create_program is a function of the '
+                  'constructor state", which is NOT proved. NOT proved, tested '
                   'only: identical samples and measurement windows of the instantiated program (2 parameter assignments), '
                   'validity of the documents as JSON text, the three real backends (the model has one abstract backend). Tied to /repo by an exact correspondence '
                   'check on real template forests and operation histories over the dict, directory and zip backends '
@@ -1450,7 +1462,9 @@ MANIFEST = {
                   'not derived from a template semantics; the duration term is evaluated in the model only on the '
                   'substitution-free fragment (no MappingPT / ForLoopPT above the compared node), atom values are an oracle '
                   'table; known finding float_precision_not_preserved (numpy float32/16 scalars, 16-17 digit decimal strings, '
-                  'ConstantPT with an ExpressionScalar float, items of a vector valued PointPT entry) is outside the model (text level); (3) the history theorems assume no identifier clash and no '
+                  'ConstantPT with an ExpressionScalar float, items of a vector valued PointPT entry) and known finding '
+                  'constraint_text_not_reparsable (Xor / constant relations as parameter constraints are stored as a text the '
+                  'parser rejects: loud failure on load) are outside the model (text level); (3) the history theorems assume no identifier clash and no '
                   'mutation (link_to) in the history; link_to histories and histories with delete through a second '
                   'PulseStorage are covered by the correspondence check only / not at all (a failed store that loaded a '
                   'child from the backend leaves it in the temporary storage: not modelled, unobservable on one storage); '
